@@ -511,3 +511,26 @@ func (p *refROR2) value(depth int) *Node {
 	}
 	return &Node{Kind: String, S: s}
 }
+
+// ReducedEscape is the protocol's "reduced" encoding of a string as it must
+// appear inside headers and JSON bodies (X-RestLi-Id, keys of batch response
+// maps): only the characters reserved by the ROR2 grammar - ( ) , ' : - and
+// the escape character % itself are percent-encoded (upper-case hex), every
+// other byte stays literal, and the empty string is written ''. Written from
+// the protocol description; shares no code with the library.
+func ReducedEscape(s string) string {
+	if s == "" {
+		return "''"
+	}
+	const hex = "0123456789ABCDEF"
+	out := make([]byte, 0, len(s)+4)
+	for i := 0; i < len(s); i++ {
+		c := s[i]
+		if c == '(' || c == ')' || c == ',' || c == '\'' || c == ':' || c == '%' {
+			out = append(out, '%', hex[c>>4], hex[c&15])
+		} else {
+			out = append(out, c)
+		}
+	}
+	return string(out)
+}
